@@ -1451,6 +1451,29 @@ def state_paths(prefix='a5', max_items=400, max_paths=60000):
             out[path] = leaf(v)
             return
         if isinstance(v, skip):
+            mod = getattr(v, '__module__', None) or ''
+            if id(v) in seen or not (mod == prefix or mod.startswith(prefix + '.')):
+                return
+            seen.add(id(v))
+            if isinstance(v, types.FunctionType):
+                # state in disguise: mutable default arguments, closure cells
+                for n, d in enumerate(v.__defaults__ or ()):
+                    if not isinstance(d, (int, str, bool, bytes, float, tuple)) and d is not None:
+                        walk(d, '%s.__defaults__[%d]' % (path, n), depth + 1)
+                for k, d in sorted((v.__kwdefaults__ or {}).items()):
+                    if not isinstance(d, (int, str, bool, bytes, float, tuple)) and d is not None:
+                        walk(d, '%s.__kwdefaults__{%s}' % (path, k), depth + 1)
+                for n, c in enumerate(v.__closure__ or ()):
+                    try:
+                        walk(c.cell_contents, '%s.__closure__[%d]' % (path, n), depth + 1)
+                    except ValueError:
+                        pass
+            elif isinstance(v, type):
+                # class attributes are shared by all instances
+                for k, x in sorted(vars(v).items()):
+                    if k.startswith('__') or isinstance(x, (property, staticmethod, classmethod)):
+                        continue
+                    walk(x, '%s.%s' % (path, k), depth + 1)
             return
         i = id(v)
         if i in seen:
@@ -1840,6 +1863,22 @@ def hot_lines(prefix_dir):
             visit(v, 0)
 
     codes = {}          # code -> is method of a singleton class
+    shared_params = {}  # code -> names of parameters whose default is a mutable object (a memo in disguise)
+
+    def note_defaults(f):
+        try:
+            co = f.__code__
+            names = co.co_varnames[:co.co_argcount + co.co_kwonlyargcount]
+            dflt = list(f.__defaults__ or ())
+            pos = names[co.co_argcount - len(dflt):co.co_argcount]
+            for n, d in zip(pos, dflt):
+                if type(d) in (list, dict, set, bytearray) or inst_dict(d) is not None:
+                    shared_params.setdefault(co, set()).add(n)
+            for n, d in (f.__kwdefaults__ or {}).items():
+                if type(d) in (list, dict, set, bytearray) or inst_dict(d) is not None:
+                    shared_params.setdefault(co, set()).add(n)
+        except Exception:
+            pass
 
     def add_code(co, single):
         if not co.co_filename.startswith(prefix_dir):
@@ -1856,12 +1895,14 @@ def hot_lines(prefix_dir):
         for g, v in list(vars(m).items()):
             if isinstance(v, types.FunctionType):
                 add_code(v.__code__, False)
+                note_defaults(v)
             elif isinstance(v, type):
                 single = any(v in c.__mro__ for c in singleton_classes)
                 for a in list(vars(v).values()):
                     f = getattr(a, '__func__', a)
                     if isinstance(f, types.FunctionType):
                         add_code(f.__code__, single)
+                        note_defaults(f)
                     elif isinstance(a, property):
                         for pf in (a.fget, a.fset, a.fdel):
                             if isinstance(pf, types.FunctionType):
@@ -1892,6 +1933,11 @@ def hot_lines(prefix_dir):
                 if op in ('STORE_GLOBAL', 'DELETE_GLOBAL'):
                     is_hot = True
                 elif op in ('LOAD_GLOBAL', 'LOAD_NAME') and (i.argval in stored_globals or i.argval in mutable_globals):
+                    is_hot = True
+                    shared_load = True
+                elif op in ('LOAD_FAST', 'LOAD_FAST_CHECK', 'LOAD_DEREF', 'STORE_DEREF') and \
+                        (i.argval in shared_params.get(co, ()) or op in ('LOAD_DEREF', 'STORE_DEREF')):
+                    # a parameter whose default is a mutable object, or a closure cell: shared by all callers
                     is_hot = True
                     shared_load = True
                 elif single and op in ('LOAD_ATTR', 'LOAD_METHOD', 'STORE_ATTR', 'DELETE_ATTR') and prev is not None \
